@@ -554,6 +554,36 @@ def control_dependent_switches(f, target_bb, within=None):
     return out
 
 
+def decision_switches(f, target_bb, depth=2):
+    """the switches deciding whether target runs, including those that decide the value of a flag it is switched on
+    (`let go = a == X && cond(); if go { target }`: the flag is assigned on both sides of the first test, so the target is
+    control-dependent on the flag only, and the flag's *value* on the first test)"""
+    out = list(control_dependent_switches(f, target_bb))
+    seen = set(out)
+    frontier = list(out)
+    for _ in range(depth):
+        nxt = []
+        for w in frontier:
+            l = _opl(f.term(w)["discr"])
+            if l is None:
+                continue
+            # the flag itself, or the value it is a plain copy of
+            flags = set(x for x in copy_sources(f, l) if isinstance(x, int))
+            blocks = set()
+            for x in flags:
+                ds = f.defs().get(x, [])
+                if len(ds) >= 2:
+                    blocks |= set(b for b, kind, d in ds)
+            for b in blocks:
+                for w2 in control_dependent_switches(f, b):
+                    if w2 not in seen:
+                        seen.add(w2)
+                        out.append(w2)
+                        nxt.append(w2)
+        frontier = nxt
+    return out
+
+
 def copy_sources(f, local, depth=0, seen=None):
     """locals/places a value is a *pure copy* of (use/ref/deref chains and Clone/Copy/Deref/Into-style calls only)"""
     if seen is None:
